@@ -2,3 +2,4 @@ import Absnfs.Bytes
 import Absnfs.Xdr
 import Absnfs.Rpc
 import Absnfs.RecordMark
+import Absnfs.Access
